@@ -21,6 +21,11 @@ func c08Body(kind string, atoms *AtomTable) []Stmt {
 		c := &Cmd{Name: A(atoms.New(ClsPlainCmd, "cmd", "")), Args: [][]Tok{{L(fmt.Sprintf("\"Hello %d$\"", c08TextSeq))}, {A(atoms.New(ClsIdent, "arg", ""))}}}
 		return []Stmt{c, &Cmd{Name: A(atoms.New(ClsPlainCmd, "cmd", ""))}}
 	}
+	if kind == "moves" {
+		c08TextSeq++
+		c := &Cmd{Name: A(atoms.New(ClsPlainCmd, "cmd", "")), Args: [][]Tok{{A(atoms.New(ClsIdent, "arg", ""))}, {L(fmt.Sprintf("moves(hello_step_%d * 2)", c08TextSeq))}}}
+		return []Stmt{&Cmd{Name: A(atoms.New(ClsPlainCmd, "cmd", ""))}, c}
+	}
 	cmd := func() *Cmd { return &Cmd{Name: A(atoms.New(ClsPlainCmd, "cmd", ""))} }
 	flag := func() *Expr { return LeafFlag(atoms.New(ClsIdent, "flag", "")) }
 	switch kind {
@@ -86,18 +91,38 @@ func c08Case(entryKinds []string, bodyKind string) *Case {
 		}, Body: in.body})
 	}
 	// inline text arguments appear as the owning inline script's hoisted label
-	owner := map[*Cmd]func() interp.Value{}
+	// ... and moves() arguments as its hoisted movement label
+	type hoisted struct {
+		owner  func() interp.Value
+		arg    int
+		suffix string
+	}
+	owner := map[*Cmd]hoisted{}
 	for _, in := range inlines {
+		in := in
+		nm := func() interp.Value {
+			if in.got != nil {
+				return in.got
+			}
+			return in.name()
+		}
 		for _, st := range in.body {
-			if c, ok := st.(*Cmd); ok && len(c.Args) > 0 && len(c.Args[0]) == 1 && strings.HasPrefix(c.Args[0][0].Lit, "\"Hello ") {
-				owner[c] = in.name
+			c, ok := st.(*Cmd)
+			if !ok {
+				continue
+			}
+			if len(c.Args) > 0 && len(c.Args[0]) == 1 && strings.HasPrefix(c.Args[0][0].Lit, "\"Hello ") {
+				owner[c] = hoisted{nm, 0, "_Text_0"}
+			}
+			if len(c.Args) > 1 && len(c.Args[1]) == 1 && strings.HasPrefix(c.Args[1][0].Lit, "moves(") {
+				owner[c] = hoisted{nm, 1, "_Movement_0"}
 			}
 		}
 	}
 	behaviour := bisimOracle("inline-script-behaviour", func(x *OracleCtx) []*Script { return scripts }, func(x *OracleCtx) RefOptions {
 		return RefOptions{ArgValue: func(c *Cmd, i int) (interp.Value, bool) {
-			if o, ok := owner[c]; ok && i == 0 {
-				return cat(o(), "_Text_0"), true // the hoisted label's name is fixed by C06
+			if h, ok := owner[c]; ok && i == h.arg {
+				return cat(h.owner(), h.suffix), true // the hoisted label's name is fixed by C06
 			}
 			return nil, false
 		}}
@@ -206,6 +231,11 @@ func c08Case(entryKinds []string, bodyKind string) *Case {
 				}
 			}
 			// every inline script is defined exactly once
+			for _, h := range owner {
+				if n := countLabelDefs(x.C, res.Out, cat(h.owner(), h.suffix)); n != 1 {
+					return &Violation{Sub: "inline-script", Msg: fmt.Sprintf("variant %s: the hoisted label %s of an inline script is defined %d times", v.Name, interp.ToString(cat(h.owner(), h.suffix)), n)}
+				}
+			}
 			for _, in := range inlines {
 				if in.got == nil {
 					return &Violation{Sub: "inline-script", Msg: "an inline script has no header / table entry"}
@@ -252,7 +282,7 @@ func RunC08(env *Env, rep *Report) {
 		maxLen, maxRows = 4, 3
 	}
 	var cases []*Case
-	bodies := []string{"cmd", "end", "if", "while", "empty", "text"}
+	bodies := []string{"cmd", "end", "if", "while", "empty", "text", "moves"}
 	for i, l := range enumMapEntries(maxLen, maxRows) {
 		if len(l) == maxLen && env.Tier == "thorough" && i%3 != 0 {
 			continue
@@ -263,7 +293,7 @@ func RunC08(env *Env, rep *Report) {
 		cases = append(cases, c08Case([]string{"inline", "table:i,p", "inline"}, b), c08Case([]string{"table:i,i", "table:p,i"}, b))
 	}
 	rep.Technique = "symbolic execution of the real mapscripts parser and emitter (go/ssa) with symbolic names; rope assertions on header and tables + SMT-discharged bisimulation of every inline script against its body as a script"
-	rep.Explanation = "Bounded symbolic verification, not a proof. Every mapscripts entry list up to the length bound over {plain, inline, table with up to the row bound of plain/inline rows} is compiled by symbolic execution of the real code with all type names, labels, table conditions and values symbolic, inline bodies rotating over {one command, command+end, if/else with end, while with conditional break, empty}. Asserted: the header label, the map_script lines of the plain and inline entries in source order followed by those of the tables in source order, '.byte 0'; for every table its label, its map_script_2 triples in source order and '.2byte 0'; every inline script (entry or table row) is defined exactly once under the label the header/row carries and is bisimilar (for every game state) to its body written as a script statement."
+	rep.Explanation = "Bounded symbolic verification, not a proof. Every mapscripts entry list up to the length bound over {plain, inline, table with up to the row bound of plain/inline rows} is compiled by symbolic execution of the real code with all type names, labels, table conditions and values symbolic, inline bodies rotating over {one command, command+end, if/else with end, while with conditional break, empty, a command with an inline text, a command with a moves() argument}. Asserted: the header label, the map_script lines of the plain and inline entries in source order followed by those of the tables in source order, '.byte 0'; for every table its label, its map_script_2 triples in source order and '.2byte 0'; every inline script (entry or table row) is defined exactly once under the label the header/row carries and is bisimilar (for every game state) to its body written as a script statement."
 	rep.Bounds = map[string]interface{}{"max_entries": maxLen, "max_rows_per_table": maxRows, "inline_bodies": bodies, "cases": len(cases)}
 	rep.Outside = []string{"longer entry lists / tables", "inline bodies beyond the listed kinds (inline text in inline map scripts is covered by C06, poryswitch by C12)", "two entries with the same type name"}
 	rep.Assumptions = []string{"type names are pairwise distinct generic identifiers", "assembly semantics of DESIGN.md §4.1 for the inline scripts"}
